@@ -87,11 +87,36 @@ def hStage : P String := do
     let b := " ".intercalate (cap.map fun p => showEV p.post)
     pure s!"ok {nxt.length} {a} {b}"
 
+def pAnsList : P (List Ans) := do let t ← tok; liftM (parseAnsList t)
+
+def pStageEnv (δ : Rat) : P StageEnv := do
+  let bs ← pList; let es ← pAnsList
+  if bs.length ≠ es.length then failure
+  let ids ← pNatList
+  let k ← pNat
+  let ms ← rep pMove k
+  pure ⟨tableEssNear δ (bs.zip es), ids, ms⟩
+
+/-- `run δ β prev N particles… nst (table ids moves)…` : the whole `while beta < 1` loop -/
+def hRun : P String := do
+  let δ ← pRat; let β ← pRat; let prev ← pRat; let n ← pNat
+  let ps ← rep pParticle n
+  let nst ← pNat
+  let envs ← rep (pStageEnv δ) nst
+  match runLoop consts envs β prev ps with
+  | .need b => pure s!"need {showRat b}"
+  | .raise e => pure s!"err {e}"
+  | .ok tr fin =>
+    let last := match tr.getLast? with | some e => e.2 | none => []
+    let a := " ".intercalate (last.map fun p => s!"{showList p.x} {showEV p.lik} {showEV p.post}")
+    pure s!"ok {showBool fin} {showList (tr.map (·.1))} {showNatList (tr.map (·.2.length))} {last.length} {a}"
+
 def handle : List String → String
   | "bisect" :: rest => (runP hBisect rest).getD "bad-op"
   | "weights" :: rest => (runP hWeights rest).getD "bad-op"
   | "mh" :: rest => (runP hMh rest).getD "bad-op"
   | "stage" :: rest => (runP hStage rest).getD "bad-op"
+  | "run" :: rest => (runP hRun rest).getD "bad-op"
   | _ => "bad-op"
 
 end Pun.Drv.C19
